@@ -52,6 +52,7 @@ TREES = [
     "a AND (b OR c)",
     "x IN (1, 2, 3)",
     "SELECT 1",
+    "g() + f(a)",  # a zero-argument call: its list-valued arg is EMPTY (sharing it is invisible until an append)
 ]
 
 SCHEMA = {
